@@ -188,6 +188,12 @@ def evaluate(case):
                 r0, g0, _ = getattr(tr, f"S_to_{X}")(q, s, st.dr, lorch=False, **kw)
                 ref = getattr(ff, f"{X}_using_S")(r0, g0, q, s, case["cutoff"], lorch=False, OmittedXrangeCorrection=case["lowq"], **kw)
             qc, sc_, rc, gc = cur(st)
+            # frame: what a step does not (re)compute stays what it was — the stored curves are the object's own arrays, not views of a
+            # buffer that a later transform reuses
+            before_all = {("g", t): np.array(v, copy=True) for t, v in st.gr_master.items()} | {("s", t): np.array(v, copy=True) for t, v in st.sq_master.items()}
+            writes = {0: {("g", st.gr_title)}, 5: {("g", st.gr_title)}, 6: {("g", st.gr_title)},
+                      1: {("s", st._ft_title), ("s", st.sq_ft_title), ("g", st.gr_ft_title)} | ({("g", st.gr_title)} if st.gr_title not in st.gr_master else set()),
+                      2: {("g", st.gr_lorch_title)}, 3: {("s", st.fq_title)}, 4: {("g", st.GKofR_title)}, 7: set(), 8: set()}[op]
             try:
                 ret = apply(st, op)
             except Exception as ex:  # noqa: BLE001
@@ -195,6 +201,16 @@ def evaluate(case):
                 break
             if not (np.array_equal(st.q_master[st.sq_title], q) and np.array_equal(st.sq_master[st.sq_title], s)):
                 fails.append(f"step {k} ({OPS[op]}): the merged S(Q) was overwritten")
+                break
+            for key, old in before_all.items():
+                if key in writes:
+                    continue
+                now = (st.gr_master if key[0] == "g" else st.sq_master).get(key[1])
+                if now is None or not np.array_equal(np.asarray(now), old, equal_nan=True):
+                    fails.append(f"step {k} ({OPS[op]}): the curve stored under '{key[1]}' changed although this step does not compute it "
+                                 f"(history {[OPS[t] for t in case['ops'][:k]]})")
+                    break
+            if fails:
                 break
             if op in (0, 5, 6) and not np.array_equal(st.gr_master[st.gr_title], g0):
                 fails.append(f"step {k}: transform_merged does not store Transformer.S_to_{X} of the merged data with the instance's settings")
